@@ -45,7 +45,7 @@ class ProofFacts:
         el = ('elem', ('field', 'signers', proof))
         self.elem = el
         self.weight = ('field', 'weight', ('field', 'signer', el))
-        self.threshold = guard_sel(g, lambda c: c[0] == 'cmp' and c[1] == 'le' and core(c[2]) == ('field', 'threshold', proof)
+        self.threshold = guard_sel(g, lambda c: c[0] == 'cmp' and c[1] == 'le' and is_modulo_carry(c[2], ('field', 'threshold', proof))
                                    and self.is_acc(c[3]))
         self.verifies = [e for e in effects(g) if e.kind == 'sigverify']
         self.next_some = guard_sel(g, lambda c: c == ('present', ('next', ('field', 'signers', proof))))
@@ -71,18 +71,22 @@ class ProofFacts:
         return False
 
     def is_acc(self, t):
-        """weight accumulator: checked sum, starting at 0, of elem.signer.weight"""
+        """weight accumulator: checked sum, starting at 0, of elem.signer.weight added to the CARRIED sum"""
         ab = checked('Add', t)
         if ab is None:
             return False
         if core(ab[1]) != self.weight:
             return False
+        carried = False
         for a in alts(ab[0]):
             a = core(a)
-            if is_zero(a) or is_mu(a):
+            if is_zero(a):
+                continue
+            if is_mu(a) or self.is_acc(a):
+                carried = True
                 continue
             return False
-        return True
+        return carried
 
     def acc_sites(self):
         """nodes where the accumulator is advanced (checked_add call or overflow assert)"""
